@@ -268,7 +268,7 @@ def run(ck: Check) -> None:
         "include, render and macro call (every self-recursive family kind x block depth 0..3 x 1-2 recursive tags, every mutual pair, recursion inside "
         "for and call, seeded random loaders) with context_depth_limit 5, 6 and 8, strict and lax, sync and async: outcome class, output length and "
         "the Python frames seen by a probe filter at the deepest character are compared inside Coq with Terminate.run_terminate. B: self-including and "
-        "self-rendering templates with the DEFAULT limits and the recursive tag at block depth 0..29: must end in ContextDepthError. C: lax mode with two "
+        "self-rendering templates with the DEFAULT limits and the recursive tag at block depth 0..29: must end in ContextDepthError in strict mode and render without any exception in lax mode. C: lax mode with two "
         "recursive tags, small limits (work measured) and the default limit (must finish within the wall-clock limit). D: extends chains with cycles "
         "against Terminate.base_of. E: unterminated / unbalanced / over-nested / random sources must parse (or be rejected) promptly. "
         "Non-trivial = the run reached a depth limit, a cycle, or the wall-clock limit."
@@ -319,35 +319,34 @@ def run(ck: Check) -> None:
                      no_input=True)
     ck.sample({"templates": templates_of(loaders[3][0]), "limit": 5, "observed": results[3 * 12]})
 
-    # ---- B: default limits, the recursive tag at block depth d
+    # ---- B: default limits, the recursive tag at block depth d (strict: ContextDepthError; lax: no exception at all)
     depths = (0, 5, 10, 14, 15, 20, 29) if ck.quick else tuple(range(0, 30))
     jobs, meta = [], []
     for kind in ("include", "render"):
         for d in depths:
             for a in (False, True):
-                jobs.append({"templates": templates_of(self_family(kind, d, 1)), "async": a})
-                meta.append((kind, d, a))
-    results = children(jobs, timeout=120, per=8)
-    frames = ck.coq_eval(IMPORTS, ["map (fun d => (frames_needed cpython_sync 30 KInclude d, frames_needed cpython_sync 30 KRender d, "
-                                    "frames_needed cpython_async 30 KInclude d, frames_needed cpython_async 30 KRender d)) (seq 0 30)"])[0]
-    import re
-
-    quads = [tuple(map(int, q)) for q in re.findall(r"\((\d+), (\d+), (\d+), (\d+)\)", frames)]
+                for lax in (False, True):
+                    jobs.append({"templates": templates_of(self_family(kind, d, 1)), "async": a, "lax": lax})
+                    meta.append((kind, d, a, lax))
+    results = children(jobs, timeout=180, per=8)
     ck.extra["B_outcomes"] = {}
-    for (kind, d, a), r in zip(meta, results):
-        ck.count(f"B.{kind}.{r['outcome']}")
-        ck.extra["B_outcomes"][f"{kind}.d{d}.{'async' if a else 'sync'}"] = r["outcome"]
-        ck.note_case(("B", kind, d, a), nontrivial=True)
-        need = quads[d][(0 if kind == "include" else 1) + (2 if a else 0)] if len(quads) == 30 else None
-        if r["outcome"] != "EContextDepth":
+    for (kind, d, a, lax), r in zip(meta, results):
+        mode = "lax" if lax else "strict"
+        ck.count(f"B.{kind}.{mode}.{r['outcome']}")
+        ck.extra["B_outcomes"][f"{kind}.d{d}.{'async' if a else 'sync'}.{mode}"] = r["outcome"]
+        ck.note_case(("B", kind, d, a, lax), nontrivial=True)
+        want = "ok" if lax else "EContextDepth"
+        if r["outcome"] != want:
             ck.violation("impl-violation", "recursion-error-before-context-depth-limit",
-                         f"self-{kind} at block depth {d} ({'async' if a else 'sync'}, default limits) ends in {r['outcome']} instead of ContextDepthError "
-                         f"(model: at least {need} Python frames needed)",
-                         {"type": "render", "templates": templates_of(self_family(kind, d, 1)), "async": a, "want": ["EContextDepth"]})
-        elif need is not None and need > RECURSION_LIMIT:
-            ck.violation("correspondence", "c09-frames-correspondence",
-                         f"self-{kind} at block depth {d} ends in ContextDepthError although the model's frame arithmetic needs {need} > {RECURSION_LIMIT} frames",
-                         {"type": "obligation", "broken": "Terminate.frames_needed / cpython_sync|async constants (theorem C09_within_stack_refuted)"}, no_input=True)
+                         f"self-{kind} at block depth {d} ({'async' if a else 'sync'}, {mode}, default limits) ends in {r['outcome']} instead of "
+                         + ("ContextDepthError" if not lax else "rendering with the error suppressed"),
+                         {"type": "render", "templates": templates_of(self_family(kind, d, 1)), "async": a, "lax": lax, "want": [want]})
+    # the model's outcome for the same families on CPython's stack (theorem C09_within_stack), evaluated for every depth
+    got = ck.coq_eval(IMPORTS, ["forallb (fun d => match self_outcome true recursion_limit 30 cpython_sync KInclude d, "
+                                "self_outcome true recursion_limit 30 cpython_async KRender d with TErr EContextDepth, TErr EContextDepth => true | _, _ => false end) (seq 0 30)"])[0]
+    if not got.startswith("true"):
+        ck.violation("correspondence", "c09-within-stack-model", f"Terminate.self_outcome does not give ContextDepthError at every block depth: {got}",
+                     {"type": "obligation", "broken": "Terminate.self_outcome (theorem C09_within_stack)"}, no_input=True)
 
     # ---- C: lax mode, two recursive tags
     jobs, meta = [], []
